@@ -1,6 +1,7 @@
 import Gpc.Driver.Num
 import Gpc.Driver.Search
 import Gpc.Driver.Utf8
+import Gpc.Driver.Utf
 open Gpc.Proto
 
 def dispatch (toks : List String) : String :=
@@ -8,6 +9,7 @@ def dispatch (toks : List String) : String :=
   | "num" :: rest => Gpc.Driver.num rest
   | "srch" :: rest => Gpc.Driver.srch rest
   | "u8" :: rest => Gpc.Driver.u8 rest
+  | "utf" :: rest => Gpc.Driver.utf rest
   | _ => "bad-op"
 
 partial def loop (h : IO.FS.Stream) (out : IO.FS.Stream) : IO Unit := do
